@@ -581,6 +581,20 @@ func (e *Env) call(c *CallE) Val {
 		if v, ok := e.eval(c.Args[0]).(SL); ok {
 			return TV{v.B, types.NewPointer(backingT)}
 		}
+	case "remove":
+		// remove(s, p): the sequence without its element at position p (definitional fresh array)
+		sq, ok := e.eval(c.Args[0]).(SQ)
+		if !ok {
+			e.errf("remove needs a sequence")
+		}
+		p := x.evalInt(e, c.Args[1])
+		if e.st == nil || len(e.qv) > 0 {
+			e.errf("remove() only in closed contexts")
+		}
+		na := x.reg.fresh("removed")
+		x.reg.declare(na, "(Array Int "+sortOf(sq.Elem.Go)+")")
+		e.st.assume(fmt.Sprintf("(forall ((j Int)) (! (= (select %s j) (ite (< j %s) (select %s (+ %s j)) (select %s (+ %s j 1)))) :pattern ((select %s j))))", na, p, sq.A, sq.O, sq.A, sq.O, na))
+		return SQ{na, "0", sub(sq.L, "1"), sq.Elem}
 	case "zero":
 		t := x.P.resolveType(c.Args[0], e.tctx)
 		return x.zeroVal(t.Go)
@@ -723,6 +737,29 @@ func (e *Env) callPure(pf *PureFunc, c *CallE) Val {
 		ne.frame = nil
 		ne.entryNames = nil
 		ne.tctx = x.P.typeCtxForPkg(pf.Pkg, e.tctx)
+		// type variables of the spec function (e.g. T in listInv(l *List[T])) are bound from the argument types
+		bound := map[string]types.Type{}
+		for i, p := range pf.Params {
+			bindTypeVars(p.Ty, valType(args[i]), bound)
+		}
+		if len(bound) > 0 {
+			nt := *ne.tctx
+			nt.targs = map[string]types.Type{}
+			for k, v := range ne.tctx.targs {
+				nt.targs[k] = v
+			}
+			for k, v := range bound {
+				if _, ok := nt.targs[k]; !ok {
+					nt.targs[k] = v
+				}
+			}
+			if len(nt.tlist) == 0 && len(bound) == 1 {
+				for _, v := range bound {
+					nt.tlist = []types.Type{v}
+				}
+			}
+			ne.tctx = &nt
+		}
 		// keep quantified variables of the caller invisible (hygiene) but bound by value
 		ne.qv = nil
 		for i, p := range pf.Params {
@@ -790,6 +827,50 @@ func (x *Exec) installAxioms() {
 	}
 }
 
+func valType(v Val) types.Type {
+	switch v := v.(type) {
+	case TV:
+		return v.Ty
+	case SV:
+		return v.Ty
+	case SL:
+		return v.Ty
+	case AV:
+		return v.Ty
+	}
+	return nil
+}
+
+// bindTypeVars matches a contract type expression against a Go type and records the
+// instantiation of single-letter type variables (T, K, V ...).
+func bindTypeVars(te *TypeExpr, t types.Type, out map[string]types.Type) {
+	if te == nil || t == nil {
+		return
+	}
+	switch te.Kind {
+	case "ptr":
+		if p, ok := t.(*types.Pointer); ok {
+			bindTypeVars(te.Elem, p.Elem(), out)
+		}
+	case "slice":
+		if s, ok := t.(*types.Slice); ok {
+			bindTypeVars(te.Elem, s.Elem(), out)
+		}
+	case "name":
+		if len(te.Args) == 0 {
+			if len(te.Name) == 1 && te.Name[0] >= 'A' && te.Name[0] <= 'Z' {
+				out[te.Name] = t
+			}
+			return
+		}
+		if n, ok := t.(*types.Named); ok && n.TypeArgs() != nil {
+			for i := 0; i < n.TypeArgs().Len() && i < len(te.Args); i++ {
+				bindTypeVars(te.Args[i], n.TypeArgs().At(i), out)
+			}
+		}
+	}
+}
+
 // ---------- ghost fields ----------
 
 func (x *Exec) ghostKeys(structT types.Type, g *GhostField, tctx *typeCtx) []string {
@@ -834,6 +915,39 @@ func (x *Exec) ghostStore(st *State, env *Env, ga GhostAssign) {
 	s, ok := ga.LHS.(*Sel)
 	if !ok {
 		env.errf("ghost assignment target must be obj.field")
+	}
+	if len(ga.QVars) > 0 {
+		// comprehension: the field of every object is redefined at once (new array := lambda m. rhs)
+		if len(ga.QVars) != 1 {
+			env.errf("ghost forall: exactly one variable")
+		}
+		qv := ga.QVars[0]
+		if id, ok := s.X.(*Ident); !ok || id.Name != qv.Name {
+			env.errf("ghost forall: target must be %s.<ghost field>", qv.Name)
+		}
+		t := x.P.resolveTypeExpr(qv.Ty, env.tctx)
+		if !isPointer(t.Go) {
+			env.errf("ghost forall: variable must have pointer type")
+		}
+		structT := deref(t.Go)
+		g := x.P.ghostField(structT, s.F)
+		if g == nil {
+			env.errf("no ghost field %s", s.F)
+		}
+		keys := x.ghostKeys(structT, g, env.tctx)
+		if len(keys) != 1 {
+			env.errf("ghost forall: scalar ghost fields only")
+		}
+		x.P.qcount++
+		bv := fmt.Sprintf("%s!%d", qv.Name, x.P.qcount)
+		env.qv = append(env.qv, map[string]Val{qv.Name: TV{bv, t.Go}})
+		rhs := x.scalar(env.eval(ga.RHS))
+		env.qv = env.qv[:len(env.qv)-1]
+		na := x.reg.fresh(keys[0])
+		x.reg.declare(na, x.keySort(keys[0]))
+		st.assume(fmt.Sprintf("(forall ((%s Int)) (! (= (select %s %s) %s) :pattern ((select %s %s))))", bv, na, bv, rhs, na, bv))
+		st.H.M[keys[0]] = na
+		return
 	}
 	base := env.eval(s.X)
 	tv, ok := base.(TV)
